@@ -95,6 +95,8 @@ func (t *sterm) grl() string {
 		return fmt.Sprint(t.Bv)
 	case "sub":
 		return "F.Sub(" + t.A.grl() + ", " + t.B.grl() + ")"
+	case "kind":
+		return "F.Kind(" + t.A.grl() + ")"
 	case "gsub":
 		return "F.Me().Sub(" + t.A.grl() + ", " + t.B.grl() + ")"
 	case "bin":
@@ -143,6 +145,21 @@ type SibFact struct {
 
 func (f *SibFact) Sub(a, b int64) int64    { return a - b }
 func (f *SibFact) Me() *SibFact            { return f }
+
+// Kind tells of which kind the value is that a rule handed over: literals that only print alike are different arguments.
+func (f *SibFact) Kind(v interface{}) int64 {
+	switch v.(type) {
+	case int64, int, int32, uint64:
+		return 1
+	case float64, float32:
+		return 2
+	case string:
+		return 3
+	case bool:
+		return 4
+	}
+	return 0
+}
 func (f *SibFact) GetArr() []int64         { return f.Arr }
 func (f *SibFact) GetM() map[string]int64  { return f.M }
 func (f *SibFact) Other() *SibFact         { return f.O }
